@@ -1,5 +1,717 @@
-import EnvVerif.Lemmas.Basic
+/-
+  Props/C09.lean — signatures.
+
+  "For every envelope, signing key and signature scheme, a signature added with a private
+  key verifies under the matching public key and under no other; it keeps verifying after
+  any elision, encryption or compression of the envelope's parts and after other assertions
+  are added (the subject digest being unchanged), and does not verify for a different
+  subject.  Threshold verification over a list of keys succeeds iff at least the threshold
+  (all of them when none is given) have a valid signature, and metadata returned for a
+  verified signature is itself covered by a signature from the same key."
+
+  The verification glue is `Model/Signature.lean` (the repaired
+  `has_some_signature_from_key_returning_metadata`); the scheme `V : SigScheme` is a
+  parameter.  Theorems that speak about *made* signatures take the idealised signer `S`
+  and `SigLaws V S` (`Lemmas/SigLaws.lean`) as a hypothesis; a toy instance satisfying the
+  laws is `SigL.Toy.laws`.  The hash `h` is arbitrary throughout.
+
+  Vocabulary (`Lemmas/SigLaws.lean`): `signedObjects h e` — the objects of the 'signed'
+  assertions of `e` in stored order (`signedObjects_spec` ties it to the model);
+  `ReadableSigBy V key x msg` — `x` holds a readable `Signature` verifying `msg` under
+  `key`; `NotShadowed h e o` — no *other* element of `e` has the digest of `'signed': o`;
+  `metaEnvelope`, `signedWrapper` — the two envelopes `add_signature_opt` builds when there
+  is metadata; `validCount valid keys` — number of keys (with multiplicity) that are valid.
+-/
+import EnvVerif.Lemmas.SigLemmas
 namespace EnvVerif
-/-- placeholder while the property theorems are being written -/
-theorem c09_sort_asc_id {as : List Env} (hs : AscDigests as) : sortByDigest as = as := sortByDigest_of_asc hs
+open Env SigL
+
+variable (h : Hash) (V : SigScheme)
+
+/-! ### 0. the 'signed' objects -/
+
+/-- `signedObjects` is what `objects_for_predicate('signed')` returns, and it lists exactly
+the objects of the assertion elements whose (subject's) predicate has the digest of 'signed' -/
+theorem signedObjects_spec (e : Env) :
+    objectsForPredicate e (newKnownValue h KV_SIGNED) = .ok (signedObjects h e) ∧
+    ∀ o, o ∈ signedObjects h e ↔
+      ∃ a ∈ e.assertions, ∃ q d, a.subject = .assertion q o d ∧
+        q.digest = (newKnownValue h KV_SIGNED).digest :=
+  ⟨objectsForPredicate_signed h e, fun _ => mem_signedObjects h⟩
+
+/-! ### 4. totality: never an error, never a panic -/
+
+/-- C09: for *every* envelope (no invariant needed) signature verification returns a
+verdict: a 'signed' object that is not a signature from the key is skipped -/
+theorem no_error_no_panic (key : Nat) (e : Env) :
+    (∃ r, hasSignatureFromReturningMetadata h V key e = .ok r) ∧
+    (∀ x, hasSignatureFromReturningMetadata h V key e ≠ .err x) ∧
+    (∀ x, hasSignatureFromReturningMetadata h V key e ≠ .panic x) := by
+  rw [hasSigMeta_eq]
+  exact ⟨⟨_, rfl⟩, fun _ hx => (by cases hx), fun _ hx => (by cases hx)⟩
+
+theorem has_signature_total (key : Nat) (e : Env) : ∃ b, hasSignatureFrom h V key e = .ok b :=
+  ⟨_, hasSig_eq h V key e⟩
+
+/-! ### 1. the verdict, exactly -/
+
+/-- C09: a key has a signature iff *some* 'signed' object is a valid candidate for it -/
+theorem has_sig_iff (key : Nat) (e : Env) (r : Option Env)
+    (hr : hasSignatureFromReturningMetadata h V key e = .ok r) :
+    r.isSome = true ↔ ∃ so ∈ signedObjects h e, (sigCandidate h V key e so).isSome = true := by
+  rw [hasSigMeta_eq] at hr
+  cases hr
+  exact List.findSome?_isSome_iff
+
+example : ∃ r, hasSignatureFromReturningMetadata Toy.hash Toy.scheme 1 Toy.signed1 = .ok r :=
+  (no_error_no_panic _ _ 1 Toy.signed1).1
+
+theorem has_signature_iff (key : Nat) (e : Env) :
+    (hasSignatureFrom h V key e = .ok true ↔
+      ∃ so ∈ signedObjects h e, (sigCandidate h V key e so).isSome = true) ∧
+    (hasSignatureFrom h V key e = .ok false ↔
+      ∀ so ∈ signedObjects h e, sigCandidate h V key e so = none) := by
+  rw [hasSig_eq]
+  have hi := validSig_iff h V key e
+  cases hv : validSig h V key e with
+  | true =>
+    refine ⟨⟨fun _ => hi.1 hv, fun _ => rfl⟩, ⟨fun hx => (by cases hx), fun hall => ?_⟩⟩
+    obtain ⟨so, hso, hs⟩ := hi.1 hv
+    rw [hall so hso] at hs; cases hs
+  | false =>
+    refine ⟨⟨fun hx => (by cases hx), fun hex => ?_⟩, ⟨fun _ so hso => ?_, fun _ => rfl⟩⟩
+    · rw [hi.2 hex] at hv; cases hv
+    · cases hc : sigCandidate h V key e so with
+      | none => rfl
+      | some m =>
+        have := hi.2 ⟨so, hso, by rw [hc]; rfl⟩
+        rw [hv] at this; cases this
+
+/-- C09: a 'signed' object that is not a wrapper counts for `key` iff it is a readable
+signature verifying the digest of the envelope's subject under `key`; what is returned is
+the object itself -/
+theorem sigCandidate_plain_exact (key : Nat) (e so m : Env) (hw : so.subject.isWrapped = false) :
+    sigCandidate h V key e so = some m ↔ m = so ∧ ReadableSigBy V key so e.subject.digest :=
+  sigCandidate_plain h V key e so m hw
+
+example : Toy.subj.subject.isWrapped = false := rfl
+
+/-- C09: a wrapper (signature with metadata) counts for `key` iff some 'signed' object it
+carries is a readable signature by `key` over the wrapper's digest **and** the wrapped
+envelope's subject is a readable signature by `key` over the digest of the envelope's
+subject; what is returned is the wrapped (metadata) envelope -/
+theorem sigCandidate_wrapper_exact (key : Nat) (e so inner m : Env) (d : Digest)
+    (hs : so.subject = .wrapped inner d) :
+    sigCandidate h V key e so = some m ↔
+      m = inner ∧ (∃ o ∈ signedObjects h so, ReadableSigBy V key o d) ∧
+        ReadableSigBy V key inner e.subject.digest :=
+  sigCandidate_wrapper h V key e so inner m d hs
+
+example : (signedWrapper Toy.hash Toy.subj (fun _ => .uint 0)).subject =
+    .wrapped Toy.subj (Toy.hash.ofDigests [Toy.subj.digest]) := rfl
+
+/-- both cases in one statement -/
+theorem sigCandidate_isSome_iff (key : Nat) (e so : Env) :
+    (sigCandidate h V key e so).isSome = true ↔
+      (so.subject.isWrapped = false ∧ ReadableSigBy V key so e.subject.digest) ∨
+      (∃ inner d, so.subject = .wrapped inner d ∧
+        (∃ o ∈ signedObjects h so, ReadableSigBy V key o d) ∧
+        ReadableSigBy V key inner e.subject.digest) := by
+  rw [Option.isSome_iff_exists]
+  cases hs : so.subject with
+  | wrapped inner d =>
+    constructor
+    · rintro ⟨m, hm⟩
+      exact Or.inr ⟨inner, d, rfl, ((sigCandidate_wrapper h V key e so inner m d hs).1 hm).2⟩
+    · rintro (⟨hw, _⟩ | ⟨inner', d', he, hx⟩)
+      · cases hw
+      · cases he
+        exact ⟨inner, (sigCandidate_wrapper h V key e so inner inner d hs).2 ⟨rfl, hx⟩⟩
+  | _ =>
+    have hw : so.subject.isWrapped = false := by rw [hs]; rfl
+    constructor
+    · rintro ⟨m, hm⟩
+      exact Or.inl ⟨rfl, ((sigCandidate_plain h V key e so m hw).1 hm).2⟩
+    · rintro (⟨_, hx⟩ | ⟨inner', d', he, _⟩)
+      · exact ⟨so, (sigCandidate_plain h V key e so so hw).2 ⟨rfl, hx⟩⟩
+      · cases he
+
+/-- a wrapper that carries no 'signed' assertion at all is never accepted (the repaired
+defect: its metadata used to be returned unverified) -/
+theorem unsigned_wrapper_rejects (key : Nat) (e m : Env) :
+    sigCandidate h V key e (wrap h m) = none := by
+  cases hc : sigCandidate h V key e (wrap h m) with
+  | none => rfl
+  | some x =>
+    obtain ⟨_, ⟨o, ho, _⟩, _⟩ := (sigCandidate_wrapper h V key e (wrap h m) m x _ rfl).1 hc
+    cases ho
+
+/-! ### 8. returned metadata is covered by the key -/
+
+/-- C09: whatever `has_some_signature_from_key_returning_metadata` returns is either one of
+the plain 'signed' objects verifying under the key, or the content `m` of a wrapper that is
+a 'signed' object of `e`, carries a 'signed' object that is a readable signature by the key
+over the wrapper's digest, and whose own subject is the key's signature over the subject
+of `e` -/
+theorem metadata_covered (key : Nat) (e m : Env)
+    (hr : hasSignatureFromReturningMetadata h V key e = .ok (some m)) :
+    ∃ so ∈ signedObjects h e,
+      (so.subject.isWrapped = false ∧ m = so ∧ ReadableSigBy V key so e.subject.digest) ∨
+      (∃ d, so.subject = .wrapped m d ∧
+        (∃ o ∈ signedObjects h so, ReadableSigBy V key o d) ∧
+        ReadableSigBy V key m e.subject.digest) := by
+  rw [hasSigMeta_eq] at hr
+  obtain ⟨so, hso, hc⟩ := List.exists_of_findSome?_eq_some (Res.ok.inj hr)
+  refine ⟨so, hso, ?_⟩
+  cases hs : so.subject with
+  | wrapped inner d =>
+    obtain ⟨rfl, hx⟩ := (sigCandidate_wrapper h V key e so inner m d hs).1 hc
+    exact Or.inr ⟨d, rfl, hx⟩
+  | _ =>
+    have hw : so.subject.isWrapped = false := by rw [hs]; rfl
+    exact Or.inl ⟨rfl, (sigCandidate_plain h V key e so m hw).1 hc⟩
+
+example : ∃ m, hasSignatureFromReturningMetadata Toy.hash Toy.scheme 1 Toy.signed1 = .ok (some m) := by
+  have hv : hasSignatureFrom Toy.hash Toy.scheme 1 Toy.signed1 = .ok true := by decide +kernel
+  rw [hasSig_eq] at hv
+  rw [hasSigMeta_eq]
+  obtain ⟨m, hm⟩ := Option.isSome_iff_exists.1 (Res.ok.inj hv)
+  exact ⟨m, by rw [hm]⟩
+
+/-! ### 5./6. the verdict depends on the subject digest and the set of 'signed' objects only -/
+
+/-- C09: same subject digest and same list of 'signed' objects: same result, metadata
+included -/
+theorem depends_only_on_subject_digest_and_signed_objects (key : Nat) (e e' : Env)
+    (hd : e'.subject.digest = e.subject.digest)
+    (ho : objectsForPredicate e' (newKnownValue h KV_SIGNED) =
+      objectsForPredicate e (newKnownValue h KV_SIGNED)) :
+    hasSignatureFromReturningMetadata h V key e' = hasSignatureFromReturningMetadata h V key e := by
+  unfold hasSignatureFromReturningMetadata
+  rw [ho]
+  have : sigCandidate h V key e' = sigCandidate h V key e :=
+    funext fun so => sigCandidate_congr h V key hd so
+  rw [this]
+
+/-- the same subject and 'signed' assertion under another (here: wrong) cached root digest -/
+example : (Env.node Toy.subj [Toy.sa1] ⟨0⟩).subject.digest = Toy.signed1.subject.digest ∧
+    objectsForPredicate (Env.node Toy.subj [Toy.sa1] ⟨0⟩) (newKnownValue Toy.hash KV_SIGNED) =
+      objectsForPredicate Toy.signed1 (newKnownValue Toy.hash KV_SIGNED) :=
+  ⟨by show Toy.subj.digest = Toy.subj.digest; rfl, by
+    rw [objectsForPredicate_signed, objectsForPredicate_signed]
+    exact congrArg Res.ok (signedObjects_of_assertions_eq Toy.hash
+      (e := Env.node Toy.subj [Toy.sa1] ⟨0⟩) (e' := Toy.signed1) (by show [Toy.sa1] = [Toy.sa1]; rfl))⟩
+
+/-- the search over the 'signed' objects succeeds iff some object is accepted: the position
+of the accepted one among rejected ones is irrelevant -/
+theorem order_independent {α β : Type} (f : α → Option β) (sos : List α) :
+    (sos.findSome? f).isSome = true ↔ ∃ so ∈ sos, (f so).isSome = true :=
+  List.findSome?_isSome_iff
+
+/-- C09: the boolean verdict is invariant under permutation of the 'signed' objects (the
+defect repaired in the library: the outcome used to depend on how the digests sort) -/
+theorem verdict_perm_invariant (key : Nat) (e e' : Env)
+    (hd : e'.subject.digest = e.subject.digest)
+    (hp : (signedObjects h e').Perm (signedObjects h e)) :
+    hasSignatureFrom h V key e' = hasSignatureFrom h V key e := by
+  rw [hasSig_eq, hasSig_eq]
+  congr 1
+  rw [Bool.eq_iff_iff, validSig_iff, validSig_iff]
+  constructor
+  · rintro ⟨so, hso, hc⟩
+    exact ⟨so, hp.mem_iff.1 hso, by rw [← sigCandidate_congr h V key hd so]; exact hc⟩
+  · rintro ⟨so, hso, hc⟩
+    exact ⟨so, hp.mem_iff.2 hso, by rw [sigCandidate_congr h V key hd so]; exact hc⟩
+
+/-- two assertion elements stored in the two possible orders -/
+example : (Env.node Toy.subj [Toy.note, Toy.sa1] ⟨0⟩).subject.digest =
+      (Env.node Toy.subj [Toy.sa1, Toy.note] ⟨0⟩).subject.digest ∧
+    (signedObjects Toy.hash (Env.node Toy.subj [Toy.note, Toy.sa1] ⟨0⟩)).Perm
+      (signedObjects Toy.hash (Env.node Toy.subj [Toy.sa1, Toy.note] ⟨0⟩)) :=
+  ⟨rfl, signedObjects_perm Toy.hash (List.Perm.swap _ _ _)⟩
+
+/-- C09: an accepted 'signed' object is accepted in every envelope that has the same subject
+digest and still lists that object under a predicate with the digest of 'signed' (the
+predicate itself may be elided: lookups match by digest) -/
+theorem valid_candidate_transfers (key : Nat) (e e' so : Env)
+    (hd : e'.subject.digest = e.subject.digest)
+    (hc : (sigCandidate h V key e so).isSome = true)
+    (hso : so ∈ signedObjects h e') : hasSignatureFrom h V key e' = .ok true := by
+  rw [hasSig_eq]
+  congr 1
+  exact (validSig_iff h V key e').2 ⟨so, hso, by rw [sigCandidate_congr h V key hd so]; exact hc⟩
+
+/-- the toy signed envelope with the predicate 'signed' elided and the subject elided -/
+example : (Env.node (.elided Toy.subj.digest)
+      [.assertion (.elided (signedKV Toy.hash).digest) (newLeaf Toy.hash Toy.sig1) Toy.sa1.digest]
+      Toy.signed1.digest).subject.digest = Toy.signed1.subject.digest ∧
+    (sigCandidate Toy.hash Toy.scheme 1 Toy.signed1 (newLeaf Toy.hash Toy.sig1)).isSome = true ∧
+    newLeaf Toy.hash Toy.sig1 ∈ signedObjects Toy.hash (Env.node (.elided Toy.subj.digest)
+      [.assertion (.elided (signedKV Toy.hash).digest) (newLeaf Toy.hash Toy.sig1) Toy.sa1.digest]
+      Toy.signed1.digest) := by
+  refine ⟨rfl, ?_, ?_⟩
+  · rw [sigCandidate_isSome_iff]
+    exact Or.inl ⟨rfl, _, extractSignature_newLeaf_sign Toy.hash Toy.laws 1 _, Toy.laws.correct 1 _⟩
+  · exact (mem_signedObjects Toy.hash).2
+      ⟨.assertion (.elided (signedKV Toy.hash).digest) (newLeaf Toy.hash Toy.sig1) Toy.sa1.digest,
+        by simp [Env.assertions], .elided (signedKV Toy.hash).digest, Toy.sa1.digest, rfl, rfl⟩
+
+/-- C09: a valid signature stays valid in any envelope with the same subject digest in
+which the 'signed' assertion elements are still present, identically (whatever happened to
+the subject and to the other assertions: elision, encryption, compression, additions) -/
+theorem survives_obscuring (key : Nat) (e e' : Env)
+    (hd : e'.subject.digest = e.subject.digest)
+    (hkeep : ∀ a ∈ assertionsWithPredicate e (newKnownValue h KV_SIGNED), a ∈ e'.assertions)
+    (hv : hasSignatureFrom h V key e = .ok true) : hasSignatureFrom h V key e' = .ok true := by
+  rw [hasSig_eq] at hv ⊢
+  congr 1
+  obtain ⟨so, hso, hc⟩ := (validSig_iff h V key e).1 (Res.ok.inj hv)
+  refine (validSig_iff h V key e').2 ⟨so, ?_, by rw [sigCandidate_congr h V key hd so]; exact hc⟩
+  obtain ⟨a, ha, q, d, hsub, hq⟩ := (mem_signedObjects h).1 hso
+  exact (mem_signedObjects h).2 ⟨a, hkeep a (AW.mem_awp.2 ⟨ha, q, so, d, hsub, hq⟩), q, d, hsub, hq⟩
+
+/-- the toy signed envelope with its subject elided -/
+example : (Env.node (.elided Toy.subj.digest) [Toy.sa1] Toy.signed1.digest).subject.digest =
+      Toy.signed1.subject.digest ∧
+    (∀ a ∈ assertionsWithPredicate Toy.signed1 (newKnownValue Toy.hash KV_SIGNED),
+      a ∈ (Env.node (.elided Toy.subj.digest) [Toy.sa1] Toy.signed1.digest).assertions) ∧
+    hasSignatureFrom Toy.hash Toy.scheme 1 Toy.signed1 = .ok true :=
+  ⟨rfl, fun _ ha => (AW.mem_awp.1 ha).1, by decide +kernel⟩
+
+/-- C09: the same for the obscuring traversal of the library (`elide_set_with_action`: every
+action — elide, encrypt, compress —, removing and revealing mode): if the root is not the
+target and no element of the assertion carrying the valid signature is, the signature keeps
+verifying — the subject and every other assertion may have been obscured -/
+theorem survives_elideSet (A : Aead) (Z : Deflate) (T : Digest → Bool) (rev : Bool) (act : Action)
+    (key : Nat) (e r a q so : Env) (d : Digest) (hi : Inv h e)
+    (hroot : (T e.digest != rev) = false)
+    (ha : a ∈ e.assertions) (hsub : a.subject = .assertion q so d)
+    (hq : q.digest = (newKnownValue h KV_SIGNED).digest)
+    (hc : (sigCandidate h V key e so).isSome = true)
+    (hu : ∀ x ∈ elements a, (T x.digest != rev) = false)
+    (hr : elideSet h A Z T rev act e = .ok r) : hasSignatureFrom h V key r = .ok true := by
+  have hn : e.isNode = true := by cases e <;> first | rfl | cases ha
+  obtain ⟨hd, hk⟩ := elideSet_node_keeps h A Z T rev act hi hn hroot hr
+  rw [hasSig_eq]
+  congr 1
+  refine (validSig_iff h V key r).2 ⟨so, ?_, by rw [sigCandidate_congr h V key hd so]; exact hc⟩
+  exact (mem_signedObjects h).2 ⟨a, hk a ha hu, q, d, hsub, hq⟩
+
+/-- the subject of the toy signed envelope is elided: the signature keeps verifying -/
+example : ∃ r, elideSet Toy.hash InvL.idAead InvL.idDeflate (fun d => d == Toy.subj.digest) false
+      .elide Toy.signed1 = .ok r ∧ hasSignatureFrom Toy.hash Toy.scheme 1 r = .ok true := by
+  obtain ⟨r, hr⟩ : ∃ r, elideSet Toy.hash InvL.idAead InvL.idDeflate
+      (fun d => d == Toy.subj.digest) false .elide Toy.signed1 = .ok r :=
+    InvL.res_isOk_iff.1 (by decide +kernel)
+  refine ⟨r, hr, survives_elideSet Toy.hash Toy.scheme _ _ _ false .elide 1 Toy.signed1 r Toy.sa1
+    (signedKV Toy.hash) (newLeaf Toy.hash Toy.sig1) _ Toy.signed1_inv (by decide +kernel)
+    (by simp [Toy.signed1, Env.assertions]) rfl rfl ?_ ?_ hr⟩
+  · rw [sigCandidate_isSome_iff]
+    exact Or.inl ⟨rfl, _, extractSignature_newLeaf_sign Toy.hash Toy.laws 1 _, Toy.laws.correct 1 _⟩
+  · intro x hx
+    simp only [Toy.sa1, sigAssertion, newAssertion, signedKV, newKnownValue, newLeaf, elements,
+      List.mem_cons, List.mem_append, List.not_mem_nil, or_false] at hx
+    rcases hx with rfl | rfl | rfl <;> decide +kernel
+
+/-- C09: adding any assertion keeps a valid signature valid -/
+theorem survives_added_assertions (key : Nat) (e a r : Env)
+    (hr : addAssertionEnvelope h e a = .ok r)
+    (hv : hasSignatureFrom h V key e = .ok true) : hasSignatureFrom h V key r = .ok true := by
+  obtain ⟨hs, hkeep, _⟩ := signedObjects_addAny h hr
+  rw [hasSig_eq] at hv ⊢
+  congr 1
+  obtain ⟨so, hso, hc⟩ := (validSig_iff h V key e).1 (Res.ok.inj hv)
+  exact (validSig_iff h V key r).2 ⟨so, hkeep so hso,
+    by rw [sigCandidate_congr h V key (congrArg Env.digest hs) so]; exact hc⟩
+
+/-- C09: adding an assertion whose predicate does not have the digest of 'signed' does not
+change the verdict for any key (nor whether metadata is returned) -/
+theorem unrelated_assertion_same_verdict (key : Nat) (e a r : Env)
+    (hr : addAssertionEnvelope h e a = .ok r)
+    (hna : ∀ q o d, a.subject = .assertion q o d → q.digest ≠ (newKnownValue h KV_SIGNED).digest) :
+    hasSignatureFrom h V key r = hasSignatureFrom h V key e := by
+  have hm : AW.matchesPred a (signedKV h) = false := by
+    cases hmp : AW.matchesPred a (signedKV h) with
+    | false => rfl
+    | true =>
+      obtain ⟨q, o, d, hsub, hq⟩ := (AW.matchesPred_iff a _).1 hmp
+      exact absurd hq (hna q o d hsub)
+  obtain ⟨hs, hkeep, hnew⟩ := signedObjects_addAny h hr
+  have hd := congrArg Env.digest hs
+  rw [hasSig_eq, hasSig_eq]
+  congr 1
+  rw [Bool.eq_iff_iff, validSig_iff, validSig_iff]
+  constructor
+  · rintro ⟨so, hso, hc⟩
+    exact ⟨so, hnew hm so hso, by rw [← sigCandidate_congr h V key hd so]; exact hc⟩
+  · rintro ⟨so, hso, hc⟩
+    exact ⟨so, hkeep so hso, by rw [sigCandidate_congr h V key hd so]; exact hc⟩
+
+example : ∃ r, addAssertionEnvelope Toy.hash Toy.signed1 Toy.note = .ok r ∧
+    hasSignatureFrom Toy.hash Toy.scheme 1 Toy.signed1 = .ok true ∧
+    (∀ q o d, Toy.note.subject = .assertion q o d →
+      q.digest ≠ (newKnownValue Toy.hash KV_SIGNED).digest) := by
+  obtain ⟨r, hr⟩ := InvL.addAssertionEnvelope_isOk Toy.hash (e := Toy.signed1) (a := Toy.note) rfl
+  refine ⟨r, hr, by decide +kernel, ?_⟩
+  intro q o d hsub
+  simp only [Toy.note, newAssertion, Env.subject, Env.assertion.injEq] at hsub
+  rw [← hsub.1]
+  decide +kernel
+
+/-! ### 2. an added signature verifies -/
+
+variable {V} {S : Signer}
+
+/-- C09: the signature made with key `k` over the subject digest and added with
+`add_signature` verifies under `k`.  The only proviso is `NotShadowed`: the envelope does not
+already hold a *different* element with the digest of the new assertion — see
+`added_signature_needs_notShadowed` below for what happens otherwise.  No invariant on `e`
+is needed. -/
+theorem added_signature_verifies (L : SigLaws V S) (k : Nat) (e r : Env) (outer : Env → Cbor)
+    (hns : NotShadowed h e (newLeaf h (S.sign k e.subject.digest)))
+    (hr : addSignature h e (S.sign k e.subject.digest) [] outer = .ok r) :
+    hasSignatureFrom h V k r = .ok true := by
+  rw [addSignature_nil] at hr
+  obtain ⟨hs, _, _, hin⟩ := signedObjects_add h hr
+  rw [hasSig_eq]
+  congr 1
+  refine (validSig_iff h V k r).2 ⟨_, hin hns, ?_⟩
+  rw [sigCandidate_isSome_iff]
+  refine Or.inl ⟨rfl, _, extractSignature_newLeaf_sign h L k _, ?_⟩
+  rw [hs]
+  exact L.correct k _
+
+example : SigLaws Toy.scheme Toy.signer ∧
+    NotShadowed Toy.hash Toy.subj (newLeaf Toy.hash (Toy.signer.sign 1 Toy.subj.subject.digest)) ∧
+    addSignature Toy.hash Toy.subj (Toy.signer.sign 1 Toy.subj.subject.digest) [] (fun _ => .uint 0) =
+      .ok Toy.signed1 :=
+  ⟨Toy.laws, fun _ hx => (by cases hx), Toy.signed1_eq _⟩
+
+/-- a fresh assertion digest is the common sufficient condition -/
+theorem added_signature_verifies_fresh (L : SigLaws V S) (k : Nat) (e r : Env) (outer : Env → Cbor)
+    (hfresh : ∀ x ∈ e.assertions,
+      x.digest ≠ (sigAssertion h (newLeaf h (S.sign k e.subject.digest))).digest)
+    (hr : addSignature h e (S.sign k e.subject.digest) [] outer = .ok r) :
+    hasSignatureFrom h V k r = .ok true :=
+  added_signature_verifies h L k e r outer (fun x hx hd => absurd hd (hfresh x hx)) hr
+
+example : ∀ x ∈ Toy.subj.assertions, x.digest ≠
+    (sigAssertion Toy.hash (newLeaf Toy.hash (Toy.signer.sign 1 Toy.subj.subject.digest))).digest :=
+  fun _ hx => (by cases hx)
+
+/-- `add_signature` (without metadata) always succeeds -/
+theorem addSignature_total (e : Env) (sig : Cbor) (outer : Env → Cbor) :
+    ∃ r, addSignature h e sig [] outer = .ok r :=
+  addAssertionUnwrap_isOk h e _ _
+
+/-- **finding** (witness for every hash and scheme): if the envelope already holds, in
+obscured form, an element with the digest of the new 'signed' assertion — e.g. the same
+deterministic signature was added before and its assertion then elided —, `add_signature`
+returns the envelope unchanged (`add_assertion_envelope` ignores a digest that is present)
+and the key does **not** verify.  The envelope satisfies the invariant, so
+`added_signature_verifies` cannot be stated with `Inv h e` alone. -/
+theorem added_signature_needs_notShadowed (k : Nat) (s : Env) (sig : Cbor) (outer : Env → Cbor) :
+    addSignature h (shadowed h s sig) sig [] outer = .ok (shadowed h s sig) ∧
+    hasSignatureFrom h V k (shadowed h s sig) = .ok false ∧
+    (Inv h s → (sigAssertion h (newLeaf h sig)).digest.Valid → Inv h (shadowed h s sig)) := by
+  refine ⟨shadowed_addSignature h s sig outer, ?_, fun hs hv => shadowed_inv h sig hs hv⟩
+  rw [hasSig_eq]
+  congr 1
+
+/-- the statement with `Inv h e` as the only hypothesis is false -/
+theorem added_signature_inv_alone_false :
+    ¬ ∀ (h : Hash) (V : SigScheme) (S : Signer), SigLaws V S → ∀ (k : Nat) (e r : Env)
+      (outer : Env → Cbor), Inv h e →
+      addSignature h e (S.sign k e.subject.digest) [] outer = .ok r →
+      hasSignatureFrom h V k r = .ok true := by
+  intro hall
+  have hw := added_signature_needs_notShadowed Toy.hash (V := Toy.scheme) 1 Toy.subj
+    (Toy.signer.sign 1 Toy.subj.digest) (fun _ => .uint 0)
+  have := hall Toy.hash Toy.scheme Toy.signer Toy.laws 1 _ _ (fun _ => .uint 0)
+    (hw.2.2 Toy.subj_inv (Toy.hash_valid _)) hw.1
+  rw [hw.2.1] at this
+  cases this
+
+/-- C09 (with metadata): `add_signature_opt` with metadata assertions builds the metadata
+envelope `m` — the signature leaf carrying exactly the metadata assertions —, wraps it,
+signs the wrapper with the same key and adds the result.  The key then verifies, the
+signed wrapper is an accepted candidate returning `m`, and when the envelope had no
+signature from `k` before, `m` is what verification returns. -/
+theorem added_signature_with_metadata_verifies (L : SigLaws V S) (k : Nat) (e r : Env)
+    (metas : List Env) (hne : metas ≠ [])
+    (hr : addSignature h e (S.sign k e.subject.digest) metas (fun w => S.sign k w.digest) = .ok r)
+    (hns : ∀ m, metaEnvelope h (S.sign k e.subject.digest) metas = .ok m →
+      NotShadowed h e (signedWrapper h m (fun w => S.sign k w.digest))) :
+    ∃ m, metaEnvelope h (S.sign k e.subject.digest) metas = .ok m ∧
+      m.subject = newLeaf h (S.sign k e.subject.digest) ∧
+      (∀ a ∈ m.assertions, a ∈ metas) ∧
+      (∀ a ∈ metas, ∃ a' ∈ m.assertions, a'.digest = a.digest) ∧
+      sigCandidate h V k r (signedWrapper h m (fun w => S.sign k w.digest)) = some m ∧
+      hasSignatureFrom h V k r = .ok true ∧
+      (∃ m', hasSignatureFromReturningMetadata h V k r = .ok (some m')) ∧
+      (hasSignatureFrom h V k e = .ok false →
+        hasSignatureFromReturningMetadata h V k r = .ok (some m)) := by
+  rcases addSignature_ok h hr with ⟨hnil, _⟩ | ⟨_, m, hm, hadd⟩
+  · exact absurd hnil hne
+  obtain ⟨hs, hold, hkeep, hin⟩ := signedObjects_add h hadd
+  have hmf := hm
+  rw [metaEnvelope_eq] at hmf
+  obtain ⟨hsub, hex, hma, hmb, hnode, _⟩ := metaFold_ok h metas _ m hmf
+  have hsubj : m.subject = newLeaf h (S.sign k e.subject.digest) := by
+    rw [hsub]; rfl
+  have hcand : sigCandidate h V k r (signedWrapper h m (fun w => S.sign k w.digest)) = some m := by
+    rw [sigCandidate_wrapper h V k r _ m m _ (signedWrapper_subject h m _)]
+    refine ⟨rfl, ⟨newLeaf h (S.sign k (wrap h m).digest),
+      (signedWrapper_signedObjects h m _ _).2 rfl, S.sign k (wrap h m).digest,
+      extractSignature_newLeaf_sign h L k _, L.correct k _⟩, S.sign k e.subject.digest, ?_, ?_⟩
+    · rw [hex]; exact extractSignature_newLeaf_sign h L k _
+    · rw [hs]; exact L.correct k _
+  have hmem := hin (hns m hm)
+  have hvalid : validSig h V k r = true :=
+    (validSig_iff h V k r).2 ⟨_, hmem, by rw [hcand]; rfl⟩
+  refine ⟨m, hm, hsubj, ?_, ?_, hcand, ?_, ?_, ?_⟩
+  · intro a ha
+    rcases hma a ha with hx | hx
+    · cases hx
+    · exact hx
+  · intro a ha; exact hmb a (Or.inr ha)
+  · rw [hasSig_eq, hvalid]
+  · rw [hasSigMeta_eq]
+    obtain ⟨m', hm'⟩ := Option.isSome_iff_exists.1 hvalid
+    exact ⟨m', by rw [hm']⟩
+  · intro hbefore
+    rw [hasSig_eq] at hbefore
+    have hb : validSig h V k e = false := Res.ok.inj hbefore
+    rw [hasSigMeta_eq, findSome?_unique _ _ _ hmem, hcand]
+    intro x hx hcx
+    rcases hold x hx with hxe | rfl
+    · have : validSig h V k e = true :=
+        (validSig_iff h V k e).2 ⟨x, hxe, by
+          rw [← sigCandidate_congr h V k (congrArg Env.digest hs) x]; exact hcx⟩
+      rw [hb] at this; cases this
+    · rfl
+
+/-- `add_signature_opt` with one 'note' on the toy subject: all hypotheses hold -/
+example : ∃ r, addSignature Toy.hash Toy.subj (Toy.signer.sign 1 Toy.subj.subject.digest) [Toy.note]
+      (fun w => Toy.signer.sign 1 w.digest) = .ok r ∧
+    (∀ m, metaEnvelope Toy.hash (Toy.signer.sign 1 Toy.subj.subject.digest) [Toy.note] = .ok m →
+      NotShadowed Toy.hash Toy.subj (signedWrapper Toy.hash m (fun w => Toy.signer.sign 1 w.digest))) ∧
+    hasSignatureFrom Toy.hash Toy.scheme 1 Toy.subj = .ok false := by
+  obtain ⟨m, hm⟩ := metaFold_isOk Toy.hash [Toy.note]
+    (newLeaf Toy.hash (Toy.signer.sign 1 Toy.subj.subject.digest)) (by simp [Toy.note, newAssertion, Env.slotOk, Env.isSubjectAssertion])
+  obtain ⟨r, hr⟩ := addAssertionUnwrap_isOk Toy.hash Toy.subj (signedKV Toy.hash)
+    (signedWrapper Toy.hash m (fun w => Toy.signer.sign 1 w.digest))
+  refine ⟨r, ?_, fun _ _ _ hx => (by cases hx), rfl⟩
+  rw [addSignature_cons, metaEnvelope_eq, hm]
+  exact hr
+
+/-! ### 3. ... and under no other key; not for another subject -/
+
+/-- C09: whatever `add_signature_opt` adds for key `k` (with or without metadata, whoever
+signs the wrapper, over whatever digest) is not a valid signature from another key: a key
+without a signature before has none after -/
+theorem other_key_rejects (L : SigLaws V S) (k k' : Nat) (hk : k' ≠ k) (e r : Env) (dg : Digest)
+    (metas : List Env) (outer : Env → Cbor)
+    (hbefore : hasSignatureFrom h V k' e = .ok false)
+    (hr : addSignature h e (S.sign k dg) metas outer = .ok r) :
+    hasSignatureFrom h V k' r = .ok false := by
+  rw [hasSig_eq] at hbefore ⊢
+  have hb : validSig h V k' e = false := Res.ok.inj hbefore
+  congr 1
+  cases hv : validSig h V k' r with
+  | false => rfl
+  | true =>
+    exfalso
+    obtain ⟨so, hso, hc⟩ := (validSig_iff h V k' r).1 hv
+    have hnot : ∀ x, extractSignature x = some (S.sign k dg) → ∀ msg, ¬ ReadableSigBy V k' x msg := by
+      rintro x hx msg ⟨s, hs, hver⟩
+      rw [hx] at hs; cases hs
+      exact hk (L.sep _ _ _ _ hver).1
+    rcases addSignature_ok h hr with ⟨_, hadd⟩ | ⟨_, m, hm, hadd⟩
+    · obtain ⟨hs, hold, _, _⟩ := signedObjects_add h hadd
+      rcases hold so hso with hxe | rfl
+      · have : validSig h V k' e = true := (validSig_iff h V k' e).2 ⟨so, hxe, by
+          rw [← sigCandidate_congr h V k' (congrArg Env.digest hs) so]; exact hc⟩
+        rw [hb] at this; cases this
+      · rw [sigCandidate_isSome_iff] at hc
+        rcases hc with ⟨_, hx⟩ | ⟨_, _, he, _⟩
+        · exact hnot _ (extractSignature_newLeaf_sign h L k dg) _ hx
+        · cases he
+    · obtain ⟨hs, hold, _, _⟩ := signedObjects_add h hadd
+      rcases hold so hso with hxe | rfl
+      · have : validSig h V k' e = true := (validSig_iff h V k' e).2 ⟨so, hxe, by
+          rw [← sigCandidate_congr h V k' (congrArg Env.digest hs) so]; exact hc⟩
+        rw [hb] at this; cases this
+      · rw [metaEnvelope_eq] at hm
+        obtain ⟨_, hex, _⟩ := metaFold_ok h metas _ m hm
+        obtain ⟨x, hx⟩ := Option.isSome_iff_exists.1 hc
+        have := ((sigCandidate_wrapper h V k' r _ m x _ (signedWrapper_subject h m outer)).1 hx).2.2
+        exact hnot m (by rw [hex]; exact extractSignature_newLeaf_sign h L k dg) _ this
+
+example : SigLaws Toy.scheme Toy.signer ∧ (2 : Nat) ≠ 1 ∧
+    hasSignatureFrom Toy.hash Toy.scheme 2 Toy.subj = .ok false ∧
+    addSignature Toy.hash Toy.subj (Toy.signer.sign 1 Toy.subj.digest) [] (fun _ => .uint 0) =
+      .ok Toy.signed1 :=
+  ⟨Toy.laws, by decide, rfl, Toy.signed1_eq _⟩
+
+/-- C09: a signature-with-metadata whose wrapper was signed by a *different* key `k2` is
+accepted neither for the inner signer `k` nor for `k2` -/
+theorem foreign_signed_wrapper_rejects (L : SigLaws V S) (k k2 key : Nat) (hk : k2 ≠ k) (e m : Env)
+    (dg : Digest) (metas : List Env)
+    (hm : metaEnvelope h (S.sign k dg) metas = .ok m) :
+    sigCandidate h V key e (signedWrapper h m (fun w => S.sign k2 w.digest)) = none := by
+  cases hc : sigCandidate h V key e (signedWrapper h m (fun w => S.sign k2 w.digest)) with
+  | none => rfl
+  | some x =>
+    exfalso
+    obtain ⟨_, ⟨o, ho, s1, hs1, hv1⟩, s2, hs2, hv2⟩ :=
+      (sigCandidate_wrapper h V key e _ m x _ (signedWrapper_subject h m _)).1 hc
+    rw [(signedWrapper_signedObjects h m _ o).1 ho, extractSignature_newLeaf_sign h L] at hs1
+    cases hs1
+    rw [metaEnvelope_eq] at hm
+    obtain ⟨_, hex, _⟩ := metaFold_ok h metas _ m hm
+    rw [hex, extractSignature_newLeaf_sign h L] at hs2
+    cases hs2
+    have h1 := (L.sep _ _ _ _ hv1).1
+    have h2 := (L.sep _ _ _ _ hv2).1
+    exact hk (h1.symm.trans h2)
+
+example : SigLaws Toy.scheme Toy.signer ∧ (2 : Nat) ≠ 1 ∧
+    ∃ m, metaEnvelope Toy.hash (Toy.signer.sign 1 Toy.subj.digest) [Toy.note] = .ok m :=
+  ⟨Toy.laws, by decide, metaFold_isOk Toy.hash [Toy.note] _
+    (by simp [Toy.note, newAssertion, Env.slotOk, Env.isSubjectAssertion])⟩
+
+/-- C09: what the signer made over the digest `dg` — the plain signature object or the
+signed wrapper with metadata — is not a valid candidate, for any key, in an envelope whose
+subject has a different digest -/
+theorem other_subject_rejects (L : SigLaws V S) (k key : Nat) (dg : Digest) (e' : Env)
+    (hd : e'.subject.digest ≠ dg) :
+    sigCandidate h V key e' (newLeaf h (S.sign k dg)) = none ∧
+    ∀ metas m outer, metaEnvelope h (S.sign k dg) metas = .ok m →
+      sigCandidate h V key e' (signedWrapper h m outer) = none := by
+  constructor
+  · cases hc : sigCandidate h V key e' (newLeaf h (S.sign k dg)) with
+    | none => rfl
+    | some x =>
+      exfalso
+      obtain ⟨_, s, hs, hv⟩ := (sigCandidate_plain h V key e' _ x rfl).1 hc
+      rw [extractSignature_newLeaf_sign h L] at hs
+      cases hs
+      exact hd (L.sep _ _ _ _ hv).2
+  · intro metas m outer hm
+    cases hc : sigCandidate h V key e' (signedWrapper h m outer) with
+    | none => rfl
+    | some x =>
+      exfalso
+      obtain ⟨_, _, s, hs, hv⟩ :=
+        (sigCandidate_wrapper h V key e' _ m x _ (signedWrapper_subject h m outer)).1 hc
+      rw [metaEnvelope_eq] at hm
+      obtain ⟨_, hex, _⟩ := metaFold_ok h metas _ m hm
+      rw [hex, extractSignature_newLeaf_sign h L] at hs
+      cases hs
+      exact hd (L.sep _ _ _ _ hv).2
+
+/-- C09: an envelope all of whose 'signed' objects were made over the digest `dg` has no
+valid signature from any key once its subject has another digest (signatures moved onto a
+different subject) -/
+theorem moved_signatures_reject (L : SigLaws V S) (key : Nat) (dg : Digest) (e' : Env)
+    (hd : e'.subject.digest ≠ dg)
+    (hall : ∀ so ∈ signedObjects h e', ∃ k, so = newLeaf h (S.sign k dg) ∨
+      ∃ metas m outer, metaEnvelope h (S.sign k dg) metas = .ok m ∧ so = signedWrapper h m outer) :
+    hasSignatureFrom h V key e' = .ok false := by
+  rw [(has_signature_iff h V key e').2]
+  intro so hso
+  obtain ⟨k, rfl | ⟨metas, m, outer, hm, rfl⟩⟩ := hall so hso
+  · exact (other_subject_rejects h L k key dg e' hd).1
+  · exact (other_subject_rejects h L k key dg e' hd).2 metas m outer hm
+
+/-- the toy signature over the subject `"b"` transplanted onto the subject `"c"` -/
+example : (Env.node (newLeaf Toy.hash (.text [0x63])) [Toy.sa1] ⟨0⟩).subject.digest ≠ Toy.subj.digest ∧
+    ∀ so ∈ signedObjects Toy.hash (Env.node (newLeaf Toy.hash (.text [0x63])) [Toy.sa1] ⟨0⟩),
+      ∃ k, so = newLeaf Toy.hash (Toy.signer.sign k Toy.subj.digest) ∨
+        ∃ metas m outer, metaEnvelope Toy.hash (Toy.signer.sign k Toy.subj.digest) metas = .ok m ∧
+          so = signedWrapper Toy.hash m outer := by
+  refine ⟨by decide +kernel, ?_⟩
+  intro so hso
+  obtain ⟨a, ha, q, d, hsub, _⟩ := (mem_signedObjects Toy.hash).1 hso
+  simp only [Env.assertions, List.mem_singleton] at ha
+  subst ha
+  simp only [Toy.sa1, sigAssertion, newAssertion, Env.subject, Env.assertion.injEq] at hsub
+  exact ⟨1, Or.inl hsub.2.1.symm⟩
+
+/-! ### 7. thresholds -/
+
+variable (V)
+
+/-- C09: with `valid k` the verdict for key `k`, `has_signatures_from_threshold(keys,
+Some(t))` is true iff at least one key of the list is valid and the number of valid keys
+(counted with multiplicity) reaches `t` -/
+theorem threshold_iff (e : Env) (keys : List Nat) (t : Nat) (valid : Nat → Bool)
+    (hv : ∀ k ∈ keys, hasSignatureFrom h V k e = .ok (valid k)) :
+    hasSignaturesFromThreshold h V keys (some t) e =
+      .ok (decide (1 ≤ validCount valid keys ∧ t ≤ validCount valid keys)) := by
+  unfold hasSignaturesFromThreshold
+  rw [thresholdLoop_spec h V e _ valid keys 0 hv]
+  simp
+
+example : ∀ k ∈ [1, 2], hasSignatureFrom Toy.hash Toy.scheme k Toy.signed1 =
+    .ok ((fun k => k == 1) k) := by
+  intro k hk
+  simp only [List.mem_cons, List.not_mem_nil, or_false] at hk
+  rcases hk with rfl | rfl <;> decide +kernel
+
+/-- for a threshold of at least one: true iff at least `t` keys are valid -/
+theorem threshold_pos_iff (e : Env) (keys : List Nat) (t : Nat) (ht : 1 ≤ t) (valid : Nat → Bool)
+    (hv : ∀ k ∈ keys, hasSignatureFrom h V k e = .ok (valid k)) :
+    hasSignaturesFromThreshold h V keys (some t) e = .ok true ↔ t ≤ validCount valid keys := by
+  rw [threshold_iff h V e keys t valid hv]
+  simp only [Res.ok.injEq, decide_eq_true_eq]
+  omega
+
+/-- a threshold of zero behaves like a threshold of one: true iff some key is valid (in
+particular false for an empty key list) -/
+theorem threshold_zero_iff (e : Env) (keys : List Nat) (valid : Nat → Bool)
+    (hv : ∀ k ∈ keys, hasSignatureFrom h V k e = .ok (valid k)) :
+    hasSignaturesFromThreshold h V keys (some 0) e = .ok true ↔ 1 ≤ validCount valid keys := by
+  rw [threshold_iff h V e keys 0 valid hv]
+  simp only [Res.ok.injEq, decide_eq_true_eq]
+  omega
+
+/-- C09: without a threshold all keys must be valid — and there must be at least one: for
+the empty key list the answer is `false` -/
+theorem threshold_none_iff (e : Env) (keys : List Nat) (valid : Nat → Bool)
+    (hv : ∀ k ∈ keys, hasSignatureFrom h V k e = .ok (valid k)) :
+    hasSignaturesFromThreshold h V keys none e =
+      .ok (decide (keys ≠ [] ∧ ∀ k ∈ keys, valid k = true)) := by
+  unfold hasSignaturesFromThreshold
+  rw [thresholdLoop_spec h V e _ valid keys 0 hv]
+  congr 1
+  rw [decide_eq_decide]
+  simp only [Option.getD_none, Nat.zero_add, validCount]
+  have hle := List.countP_le_length (p := valid) (l := keys)
+  constructor
+  · rintro ⟨h1, h2⟩
+    refine ⟨?_, List.countP_eq_length.1 (Nat.le_antisymm hle h2)⟩
+    rintro rfl; simp at h1
+  · rintro ⟨hne, hall⟩
+    rw [List.countP_eq_length.2 hall]
+    refine ⟨?_, Nat.le_refl _⟩
+    cases keys with
+    | nil => exact absurd rfl hne
+    | cons _ _ => simp
+
+/-- the empty key list never passes, whatever the threshold -/
+theorem threshold_empty (e : Env) (t : Option Nat) :
+    hasSignaturesFromThreshold h V [] t e = .ok false := rfl
+
+/-- the threshold check never errs or panics, and its verdict is the count of valid keys -/
+theorem threshold_total (e : Env) (keys : List Nat) (t : Option Nat) :
+    ∃ valid : Nat → Bool, (∀ k, hasSignatureFrom h V k e = .ok (valid k)) ∧
+      hasSignaturesFromThreshold h V keys t e =
+        .ok (decide (1 ≤ validCount valid keys ∧ t.getD keys.length ≤ validCount valid keys)) := by
+  refine ⟨fun k => validSig h V k e, fun k => hasSig_eq h V k e, ?_⟩
+  unfold hasSignaturesFromThreshold
+  rw [thresholdLoop_spec h V e _ _ keys 0 (fun k _ => hasSig_eq h V k e)]
+  simp
+
 end EnvVerif
